@@ -2,7 +2,8 @@
 and input sentences derived from / mutated around them.
 
 Grammar AST (JSON-able):
-  {"rules": [{"name", "params": {"skipws"?: bool, "ws"?: str}, "body": E}], "comment": regex-source | None}
+  {"rules": [{"name", "params": {"skipws"?: bool, "ws"?: str, "wsq"?: '"', "ws_first"?: bool}, "body": E}],
+   "comment": regex-source | None}
   E ::= {"k":"str","v":s} | {"k":"re","v":src} | {"k":"ref","name":R}
       | {"k":"seq","xs":[E]} | {"k":"alt","xs":[E]}
       | {"k":"rep","op":"?"|"*"|"+"|"#","x":E,"sep":E|None,"eol":bool}
@@ -377,7 +378,10 @@ def render_grammar(g):
         if "skipws" in p:
             ps.append("skipws" if p["skipws"] else "noskipws")
         if "ws" in p:
-            ps.append("ws=" + q(p["ws"]).replace("\\\\", "\\"))
+            # opt-in (C22): "wsq": '"' writes the value in double quotes (it must not contain one),
+            # "ws_first": True writes the ws modifier in front of skipws / noskipws
+            w = '"' + p["ws"] + '"' if p.get("wsq") == '"' else q(p["ws"]).replace("\\\\", "\\")
+            ps.insert(0 if p.get("ws_first") else len(ps), "ws=" + w)
         head = r["name"] + ("[" + ", ".join(ps) + "]" if ps else "")
         out.append(f"{head}: {render_expr(r['body'], top=True)};")
     if g.get("comment_alts"):
